@@ -146,16 +146,40 @@ func checkC16(p *Prog, r *Result, tier string) {
 
 	checkTagTable(p, r, "C16.R4")
 
-	// R5
-	if tr := p.FuncByName(cons.Obj().Name() + ".transform"); tr != nil {
+	// R5: every reference (call, or use as a function value) to the two mappings in the functions the schema's case
+	// transforms reach (insertion side and search-value side)
+	var r5roots []*ssa.Function
+	for _, n := range []string{"Schema.transform", "Schema.prepare"} {
+		if f := p.FuncByName(n); f != nil {
+			r5roots = append(r5roots, f)
+		}
+	}
+	scope := reachFrom(p, r5roots)
+	for _, tr := range p.Funcs {
+		if !inSod(p, tr) || !scope[tr] {
+			continue
+		}
 		for _, b := range tr.Blocks {
 			for _, in := range b.Instrs {
-				call, ok := in.(*ssa.Call)
-				if !ok || classifyExternal(call.Call.StaticCallee()) != xToUpperLower {
+				var ref *ssa.Function
+				if call, ok := in.(*ssa.Call); ok && classifyExternal(call.Call.StaticCallee()) == xToUpperLower {
+					ref = call.Call.StaticCallee()
+				} else {
+					var ops []*ssa.Value
+					for _, op := range in.Operands(ops) {
+						if op == nil || *op == nil {
+							continue
+						}
+						if f, ok := (*op).(*ssa.Function); ok && classifyExternal(f) == xToUpperLower {
+							ref = f
+						}
+					}
+				}
+				if ref == nil || (ref.Name() != "ToUpper" && ref.Name() != "ToLower") {
 					continue
 				}
 				want := "Upper"
-				if call.Call.StaticCallee().Name() == "ToLower" {
+				if ref.Name() == "ToLower" {
 					want = "Lower"
 				}
 				guarded := false
@@ -168,9 +192,9 @@ func checkC16(p *Prog, r *Result, tier string) {
 				}
 				construct := "strings.To" + want + " guarded by " + want
 				if guarded {
-					r.Report("C16.R5", FuncName(tr), construct, Discharged, "", p.Pos(in.Pos()), nil, true)
+					r.Report("C16.R5", ownerName(p, tr), construct, Discharged, "", p.Pos(in.Pos()), nil, true)
 				} else {
-					r.Report("C16.R5", FuncName(tr), construct, Violated, "a case mapping is applied without being guarded by its own constraint flag", p.Pos(in.Pos()), nil, true)
+					r.Report("C16.R5", ownerName(p, tr), construct, Violated, "a case mapping is applied without being guarded by its own constraint flag", p.Pos(in.Pos()), nil, true)
 				}
 			}
 		}
